@@ -7,7 +7,7 @@ from . import boltz
 
 LEVEL = "exploration"
 PROP = "C12"
-KINDS = {"C12": ("solve", "basis", "fd"), "C13": ("moment",)}[PROP]
+KINDS = {"C12": ("solve", "basis", "fd", "fdhist"), "C13": ("moment",)}[PROP]
 
 
 def jobs(tier, seed):
